@@ -188,7 +188,8 @@ func item(c cfg) *explore.Item {
 					re.Rows = [][]interface{}{binlogRow(ch.Before), binlogRow(ch.After)}
 				}
 				if c.Fault {
-					switch rt.Choose(3, true, "event-fault") {
+					kind := rt.Choose(6, true, "event-fault")
+					switch kind {
 					case 1: // a column was added to the table: the row no longer has the expected width
 						for i := range re.Rows {
 							re.Rows[i] = append(re.Rows[i], int64(0))
@@ -197,6 +198,23 @@ func item(c cfg) *explore.Item {
 					case 2: // a column changed type: a value that cannot be scanned into the struct field
 						for i := range re.Rows {
 							re.Rows[i][1] = "not-a-number"
+						}
+						garbled++
+					case 3, 4: // the row was written while the table still had one more column in the middle
+						// (dropped since): wider than expected, later values shifted, every value still scans
+						at := 3 // before opt
+						if kind == 4 {
+							at = 1 // before grp
+						}
+						for i := range re.Rows {
+							r := append([]interface{}{}, re.Rows[i][:at]...)
+							r = append(r, int64(99))
+							re.Rows[i] = append(r, re.Rows[i][at:]...)
+						}
+						garbled++
+					case 5: // written before a column was added: narrower than expected
+						for i := range re.Rows {
+							re.Rows[i] = re.Rows[i][:len(re.Rows[i])-1]
 						}
 						garbled++
 					}
